@@ -32,8 +32,10 @@ class Flux(LaunchMethod):
             self.helper   = None
 
     class Event(ru.TypedDict):
-        _schema = {'name'     : str,
-                   'timestamp': float}
+        _schema   = {'name'     : str,
+                     'timestamp': float,
+                     'context'  : {str: None}}
+        _defaults = {'context'  : {}}
 
 
     # --------------------------------------------------------------------------
@@ -300,10 +302,11 @@ class Flux(LaunchMethod):
                 self._log.debug('%s: submitted %d tasks', part.uid, len(tasks))
 
             except Exception:
+                # we are in the partition process: the executor gets to know
+                # via the event queue
                 self._log.exception('LM flux submit failed')
                 for tid in tasks:
-                    self._event_cb(tid, self.Event(name='lm_failed',
-                                                   timestamp=time.time()))
+                    q_out.put(['lm_failed', tid])
 
 
 
@@ -362,6 +365,10 @@ class Flux(LaunchMethod):
                 elif cmd == 'event':
                     flux_id, event = event
                     self._job_event_handler(flux_id, event)
+
+                elif cmd == 'lm_failed':
+                    self._event_cb(event, self.Event(name='lm_failed',
+                                                     timestamp=time.time()))
 
                 else:
                     self._log.error('unknown flux event: %s', cmd)
